@@ -65,6 +65,14 @@ def run(chk):
         ends = must_pass(ff.cfg, lambda n: node_calls(n, "self.send_request") or (n.kind == "stmt" and isinstance(n.ast, ast.Raise)), from_node=hnode)
         chk.check(ends is None, "R1", f"{CL}:SdoClient.request_response | time-out either retries or raises", rr.loc(h),
                   f"after a time-out a path returns normally without data: {path_text(ends) if ends else ''}")
+        for r in raises:
+            g = [(ff.norm(e, subst=False), p) for e, p in ff.facts_at(r)]
+            ok = any((not p and t == "retries_left") or (p and t in (ff.canon("retries_left == 0"), ff.canon("retries_left <= 0"), ff.canon("retries_left < 1"))) for t, p in g)
+            chk.check(ok, "R1", f"{CL}:SdoClient.request_response | raises when the retries are used up", rr.loc(r),
+                      f"the time-out is re-raised under {g}: with the polarity wrong the loop retries for ever (or gives up at once)")
+        init = [n for n in own_nodes(rr.node) if isinstance(n, ast.Assign) and src(n.targets[0]) == "retries_left"]
+        chk.check(len(init) == 1 and src(init[0].value) == "self.MAX_RETRIES" and ff.cfg.dominates(ff.cfg.node_of(init[0]), hnode), "R1",
+                  f"{CL}:SdoClient.request_response | retry budget initialised", rr.loc(), f"{[src(i) for i in init]}")
         # retries are bounded: the counter decreases in the handler
         dec = [n for n in ast.walk(h) if isinstance(n, ast.AugAssign) and isinstance(n.op, ast.Sub) and src(n.target) == "retries_left"]
         chk.check(bool(dec), "R1", f"{CL}:SdoClient.request_response | bounded retries", rr.loc(h), "retry counter is not decremented")
